@@ -534,8 +534,11 @@ func (s *Server) handleFileTransfer(ctx context.Context, rwc io.ReadWriter) erro
 	defer dontPanic(s.Logger)
 
 	// The first 16 bytes contain the file transfer.
+	// TCP may deliver them in more than one segment: read until all 16 are there before decoding.
 	var t transfer
-	if _, err := io.CopyN(&t, rwc, 16); err != nil {
+	preamble := make([]byte, 16)
+	n, _ := io.ReadFull(rwc, preamble)
+	if _, err := t.Write(preamble[:n]); err != nil {
 		return fmt.Errorf("error reading file transfer: %w", err)
 	}
 
